@@ -63,6 +63,24 @@ def utf8Len : Src → Nat
   | [] => 0
   | c :: r => width c + utf8Len r
 
+/-- skip characters until at least `n` bytes are skipped (exact on character boundaries) -/
+def dropBytes : Nat → Src → Src
+  | 0, s => s
+  | _ + 1, [] => []
+  | n + 1, c :: r => dropBytes (n + 1 - width c) r
+
+/-- take characters until at least `n` bytes are taken (exact on character boundaries) -/
+def takeBytes : Nat → Src → Src
+  | 0, _ => []
+  | _ + 1, [] => []
+  | n + 1, c :: r => c :: takeBytes (n + 1 - width c) r
+
+/-- the source text between byte offsets `a` and `b` (`&src[a..b]` when both are character boundaries) -/
+def byteSlice (s : Src) (a b : Nat) : Src := takeBytes (b - a) (dropBytes a s)
+
+/-- `b` is a character boundary of `s` -/
+def IsBoundary (s : Src) (b : Nat) : Prop := ∃ k, k ≤ s.length ∧ utf8Len (s.take k) = b
+
 /-! ### primitives -/
 
 def isInlineWs (c : Char) : Bool := inlineWhitespace.contains c
@@ -266,16 +284,19 @@ def keyword (s : Src) : Option (Kind × Src) :=
 
 /-! ### numbers -/
 
+/-- `just("_").or_not()` -/
+def dropUnderscore : Src → Src
+  | '_' :: r => r
+  | r => r
+
 /-- `parse_number_with_base(prefix, base, max_digits, valid_digit)` -/
 def radixNumber (pre : Src) (base maxDigits : Nat) (valid : Char → Bool) (s : Src) : Option (Lit × Src) :=
   match stripPrefix pre s with
   | none => none
   | some r =>
-    let r1 := match r with
-      | '_' :: r' => r'
-      | _ => r
-    let dr := takeUpTo valid maxDigits r1
-    if dr.1 = [] then none else some (.integer (natOfDigits base dr.1), dr.2)
+    if (takeUpTo valid maxDigits (dropUnderscore r)).1 = [] then none
+    else some (.integer (natOfDigits base (takeUpTo valid maxDigits (dropUnderscore r)).1),
+               (takeUpTo valid maxDigits (dropUnderscore r)).2)
 
 def isBinDigit (c : Char) : Bool := c == '0' || c == '1'
 def isOctDigit (c : Char) : Bool := '0' ≤ c && c ≤ '7'
@@ -399,6 +420,11 @@ def millis : Src → Src × Src
     if dr.1 = [] then ([], '.' :: r) else ('.' :: dr.1, dr.2)
   | s => ([], s)
 
+/-- `just(':').or_not()` -/
+def dropColon : Src → Src
+  | ':' :: r => r
+  | r => r
+
 /-- `Z`, or sign HH `:`? MM (printed without the colon) -/
 def timezone : Src → Src × Src
   | 'Z' :: r => (['Z'], r)
@@ -406,10 +432,7 @@ def timezone : Src → Src × Src
     if c = '-' || c = '+' then
       match digitsExact timeDigits r with
       | some (h, r1) =>
-        let r2 := match r1 with
-          | ':' :: r' => r'
-          | _ => r1
-        match digitsExact timeDigits r2 with
+        match digitsExact timeDigits (dropColon r1) with
         | some (m, r3) => (c :: h ++ m, r3)
         | none => ([], c :: r)
       | none => ([], c :: r)
@@ -563,5 +586,13 @@ def lexRecovery (src : Src) : Option (List Token) × List LexErr :=
   match lex src with
   | .ok toks => (some toks, [])
   | .error e => (none, e.toList)
+
+/-! ### vocabulary of the C17 statements -/
+
+/-- the text between consecutive tokens, before the first and after the last one, is inline whitespace only
+(`pos` = where the previous token ended) -/
+def GapsWs (src : Src) : Nat → List Token → Prop
+  | pos, [] => ∀ c ∈ byteSlice src pos (utf8Len src), isInlineWs c = true
+  | pos, t :: ts => (∀ c ∈ byteSlice src pos t.start, isInlineWs c = true) ∧ GapsWs src t.stop ts
 
 end Model.Lex
